@@ -195,10 +195,24 @@ func cmdCheck(prop, tier string) int {
 	for _, o := range all {
 		solverTime += o.Res.Time
 	}
+	// a failed obligation is assumed from there on (assert, then assume): covers of a function with a failing
+	// obligation say nothing about vacuity and are not judged
+	failingFunc := map[string]bool{}
+	funcOf := func(n string) string {
+		if i := strings.Index(n, "/"); i >= 0 {
+			return n[:i]
+		}
+		return n
+	}
+	for _, sm := range sums {
+		if sm.Kind != "cover" && !sm.OK {
+			failingFunc[funcOf(sm.Name)] = true
+		}
+	}
 	for _, sm := range sums {
 		if sm.Kind == "cover" && !strings.Contains(sm.Name, "/cover-assume:") {
 			nCover++
-			if !sm.OK {
+			if !sm.OK && !failingFunc[funcOf(sm.Name)] {
 				machinery = append(machinery, fmt.Sprintf("vacuity guard failed: %s is %s (contradictory precondition or assumptions?)", sm.Name, sm.Verdict))
 			}
 			continue
